@@ -470,9 +470,14 @@ def hypercube_map(child_space, hvals):
     h = hvals[i]
     i += 1
     if k == 'DOUBLE':
-      v = unscale(p, h)
-      v = min(max(v, p['lo']), p['hi'])
+      raw = unscale(p, h)
+      v = min(max(raw, p['lo']), p['hi'])
       mode = 'exact' if p.get('scale') in (None, 'LINEAR') else 'approx'
+      if v != raw:
+        # out-of-cube coordinate: a correct implementation may clip in the scaled
+        # space and un-scale the clipped coordinate, which lands within rounding
+        # of the bound instead of exactly on it
+        mode = 'approx'
       out[p['name']] = (mode, v)
     else:
       if k == 'INTEGER':
